@@ -8,6 +8,7 @@ import FqeVerif.Model.Sectors
 import FqeVerif.Lemmas.Bits
 import FqeVerif.Model.Maps
 import FqeVerif.Lemmas.Binom
+import Mathlib.Data.List.Induction
 namespace GenPy
 open PyPrelude Model
 
@@ -557,5 +558,63 @@ theorem py_z_matrix (norb nele : Nat) (hn : nele ≤ norb) (r c : Nat) :
           · unfold z2_index z2_k; simp; omega
         · simp only [hcond, if_false]
       · simp only [hk2, if_false]
+
+/-! ### `FciGraph._build_string_address` -/
+
+/-- the Model's address as a sum over positions -/
+theorem addressFold_eq (norb nele : Nat) (occ : List Nat) :
+    (List.zip (List.range occ.length) occ).foldl (fun acc (p : Nat × Nat) => acc + zEntry norb nele p.1 p.2) 0 =
+      sumRange' (fun i => zEntry norb nele i (occ.getD i 0)) 0 occ.length := by
+  induction occ using List.reverseRecOn with
+  | nil => rfl
+  | append_singleton l x ih =>
+    have hz : List.zip (List.range (l ++ [x]).length) (l ++ [x]) = List.zip (List.range l.length) l ++ [(l.length, x)] := by
+      rw [List.length_append, List.length_singleton, List.range_succ]
+      rw [List.zip_append (by simp)]
+      rfl
+    rw [hz, List.foldl_append, ih]
+    simp only [List.foldl_cons, List.foldl_nil, List.length_append, List.length_singleton]
+    rw [sumRange'_succ]
+    have e1 : sumRange' (fun i => zEntry norb nele i ((l ++ [x]).getD i 0)) 0 l.length =
+        sumRange' (fun i => zEntry norb nele i (l.getD i 0)) 0 l.length := by
+      apply sumRange'_congr
+      intro i _ hi
+      have : i < l.length := by omega
+      simp only [List.getD_eq_getElem?_getD, List.getElem?_append_left this]
+    have e2 : (l ++ [x]).getD (0 + l.length) 0 = x := by
+      simp [List.getD_eq_getElem?_getD]
+    rw [e1, e2]
+    simp
+
+/-- the translated `_build_string_address`, given the Model's matrix, is the Model's `addressOf` for every string whose
+    occupation list has `nele` entries (and Python's IndexError for a shorter list) -/
+theorem py_string_address (norb nele s : Nat) (h : (integerIndex s).length = nele) :
+    string_address (fun i o => zEntry norb nele i.toNat o.toNat) (nele : Int) (norb : Int) (castL (integerIndex s)) =
+      some (addressOf norb nele s) := by
+  subst h
+  unfold string_address addressOf
+  have hall : (pyRange (0 : Int) ((integerIndex s).length : Int)).all (fun i => decide (i.toNat < (castL (integerIndex s)).length)) = true := by
+    rw [List.all_eq_true]
+    intro i hi
+    rw [mem_pyRange] at hi
+    rw [castL_length]
+    simp only [decide_eq_true_eq]
+    omega
+  rw [if_pos hall]
+  congr 1
+  have e0 : pyRange (0 : Int) ((integerIndex s).length : Int) =
+      (List.range' 0 ((integerIndex s).length - 0)).map (fun (m : Nat) => (m : Int)) := by
+    have := pyRange_cast 0 (integerIndex s).length
+    simpa using this
+  rw [e0, pySum_cast]
+  have := addressFold_eq norb (integerIndex s).length (integerIndex s)
+  rw [show (List.zip (List.range (integerIndex s).length) (integerIndex s)).foldl
+        (fun acc (x : Nat × Nat) => acc + zEntry norb (integerIndex s).length x.1 x.2) 0 =
+      sumRange' (fun i => zEntry norb (integerIndex s).length i ((integerIndex s).getD i 0)) 0 (integerIndex s).length from this]
+  unfold sumRange'
+  simp only [Nat.sub_zero]
+  apply congrArg (fun f => List.foldl f (0 : Int) (List.range' 0 (integerIndex s).length))
+  funext acc m
+  simp only [Int.toNat_natCast, castL_getD]
 
 end GenPy
